@@ -2,10 +2,10 @@ package main
 
 import (
 	"fmt"
-	"reflect"
 	"go/token"
 	"go/types"
 	"os"
+	"reflect"
 	"sort"
 	"strings"
 
